@@ -4,7 +4,7 @@
     reset                                                   -> ok          (empty store)
     variant <fixAlias 0|1> <fixResolve 0|1> <fixReturn 0|1> <fixKeep 0|1> <fixPullName 0|1>
                                                             -> ok          (what the driver's probes found)
-    meta <contenthex> <archhex> <mtypehex> <ftypehex> <autoTemplate hex|~> <autoParams hex|~>
+    meta <contenthex> <archhex> <mtypehex> <ftypehex> <autoTemplate hex|~> <autoParams hex|~> [M|A|J]
                                                             -> ok          (what the real decoder / template.Named reported)
     upload <c|d> <hex> <contenthex> ## <obs>
     create <name4> from <name4> | files <k> {<c|d> <hex>}*   then
@@ -275,7 +275,15 @@ def handle (s : OState) (toks : List String) : OState × String :=
       let f ← hex
       let aT ← pOptBytes
       let aP ← pOptBytes
-      pure (c, Meta.mk (bstr a) (bstr m) (bstr f) (aT.map (fun t => (t, aP))))) rest with
+      -- optional: the media type ggufLayers gives the layer (M | A adapter | J projector)
+      let more ← get
+      let kind : Media := match more with
+        | "A" :: _ => .adapter
+        | "J" :: _ => .projector
+        | _ => .model
+      if !more.isEmpty then
+        let _ ← tok
+      pure (c, Meta.mk (bstr a) (bstr m) (bstr f) (aT.map (fun t => (t, aP))) kind)) rest with
     | some (c, mt) => ({ s with metas := aset s.metas (sha c) mt }, "ok")
     | none => (s, "bad-op")
   | "show" :: rest =>
